@@ -17,7 +17,9 @@ CHECKS = {
              "TradeDelta / QuoteDelta / Neutral on every transition) on Broker.tla exhaustively to a bounded depth; every "
              "distinct (state, last operation) of the model is then replayed with an operation history into a real "
              "tradingenv Broker+Exchange and the NLV the code reports is compared with the identity after every operation; "
-             "thousands of random longer behaviours from TLC's simulation mode are replayed the same way; in the other "
+             "thousands of random longer behaviours from TLC's simulation mode are replayed the same way; further models replay every "
+             "PATH of three operations (no VIEW), orders priced on an earlier book and executed later (TradeAt), a bid of exactly "
+             "zero; in the other "
              "direction random executions recorded from the real Broker are validated line by line by TLC (BrokerTrace.tla).",
         design="5 C01", technique="TLA+ spec (Broker.tla/LedgerOps.tla) model-checked with TLC; model states and simulated "
                                   "behaviours replayed into the real Broker; recorded Broker traces validated by TLC "
@@ -139,14 +141,18 @@ CHECKS["C07"] = dict(
          "OneEntryPerExec, StrictTimes, LedgerReplay (every reported pre/post NLV equals an independent ledger built from deposit, "
          "prices paid, fees and interest only), RewardDef and Compounding; every maximal behaviour is replayed into a real "
          "TradingEnv comparing track-record entries (stamp, pre/post NLV, trades, commissions, interest), derived frames, all four "
-         "reward functions and the compounding of simple returns.",
+         "reward functions and the compounding of simple returns; a published reference-rate path that falls to zero "
+         "(RatePath); at the account level (Broker.tla, epsilon 1/1000) rebalances that trade a sliver of a contract: the trades an "
+         "entry lists, applied to its pre-trade NLV, give its post-trade NLV.",
     design="5 C07", technique="TLA+ spec (EnvFull.tla over LedgerOps/TransmitterOps) model-checked with TLC; every behaviour "
                               "replayed into the real TradingEnv", note=FULL_NOTE)
 CHECKS["C09"] = dict(
     text="EnvFull.tla with leveraged / short targets and price paths that take NLV to exactly 0 and below, in the step's bar or "
          "inside the latency window, with and without recovery: TLC checks BrokeNeverTrades and DoneIsAbsorbing (action "
          "properties), BrokeEndsEpisode and RuinStepReturnsDone; replays compare outcome class, done flag, absence of any trade or "
-         "track entry for an insolvent decision, refusal after the end, and both valuation modes on a copy of the broker. The "
+         "track entry for an insolvent decision, refusal after the end, and both valuation modes on a copy of the broker; models "
+         "with a short position under a spread, two margined contracts, actions in numbers of contracts, and a user feature that "
+         "values the account on every quote. The "
          "ruin-step clause is a recorded known finding (known_findings.json).",
     design="5 C09", technique="TLA+ spec model-checked with TLC; every behaviour replayed into the real TradingEnv", note=FULL_NOTE)
 CHECKS["C11"] = dict(
